@@ -1,4 +1,4 @@
 #!/bin/bash
 . "$(dirname "$0")/../../lib.sh"
-build_e1 c07 tars/transport tars/util/rtimer tars/util/gpool tars/util/grace tars/util/gtime tars/util/rogger tars/util/current
+build_e1 c07 $TARS_E1_ARGS
 exec "$WORK/bin/c07" "$@"
